@@ -298,10 +298,11 @@ func newMemListener() *memListener {
 	return &memListener{ch: make(chan acceptResult, 64), closed: make(chan struct{})}
 }
 
-type tempError struct{}
+// tempError: a temporary Accept error; some temporary errors are timeouts too (an accept deadline), both kinds must be retried
+type tempError struct{ timeout bool }
 
 func (tempError) Error() string   { return "temporary accept error" }
-func (tempError) Timeout() bool   { return false }
+func (e tempError) Timeout() bool { return e.timeout }
 func (tempError) Temporary() bool { return true }
 
 var errPermanent = fmt.Errorf("permanent accept error")
